@@ -140,7 +140,9 @@ Print Assumptions C14_shorthand_expansion_adds_nothing.
    mirror g := map o_df (g_models g) = map Some (g_dfs g) /\ map o_sig (g_models g) = map Some (g_sigs g) *)
 
 (* after ANY history of group operations (fits of 2-D / 3-D arrays along any axis, re-fits with
-   another shape, threshold / burst-option edits, edge recomputations) *)
+   another shape, threshold / burst-option item edits, attribute assignments - bg.thresholds = {...},
+   bg.burst_kwargs = {...}, bg.center_extrema / burst_method / find_extrema_kwargs / return_samples = ... -
+   and edge recomputations) *)
 Theorem C14_group_models_mirror_after_any_history : forall a ops g,
   grun (construct_group a) ops = Ok g -> mirror g.
 Proof. exact group_mirror. Qed.
@@ -155,16 +157,16 @@ Theorem C14_group_mirror_position_by_position : forall g, mirror g ->
 Proof. exact mirror_pointwise. Qed.
 Print Assumptions C14_group_mirror_position_by_position.
 
-(* no stale settings: the group's settings are the constructor's with the edits applied, and every
-   model holds exactly those *)
+(* no stale settings: the group's settings are the constructor's with the item edits and the attribute
+   assignments applied (gintended), whatever fits and recomputations happened in between *)
 Theorem C14_group_settings_after_any_history : forall a ops g,
-  grun (construct_group a) ops = Ok g ->
-  g_set g = gintended (g_set (construct_group a)) ops /\ models_current g.
+  grun (construct_group a) ops = Ok g -> g_set g = gintended (g_set (construct_group a)) ops.
 Proof. exact group_settings. Qed.
 Print Assumptions C14_group_settings_after_any_history.
 
-(* no stale tables / models: a fit after any history yields, for every position of the NEW array, the
-   table of the current settings and a model loaded with that table and that signal — nothing else *)
+(* no stale tables / models: a fit after any history - attribute assignments included - yields, for every
+   position of the NEW array, the table of the CURRENT attribute values and a model loaded with that table
+   and that signal and holding those settings - nothing else *)
 Theorem C14_group_fit_after_any_history : forall a ops g arr sh g',
   grun (construct_group a) ops = Ok g -> gstep g (GFit arr sh) = Ok g' ->
   let s := gintended (g_set (construct_group a)) ops in
@@ -174,6 +176,22 @@ Theorem C14_group_fit_after_any_history : forall a ops g arr sh g',
   g_models g' = map (fun p => load_model s (cell_id arr p) (table_at s arr sh p)) (seq 0 (npos sh)).
 Proof. exact group_fit_after_history. Qed.
 Print Assumptions C14_group_fit_after_any_history.
+
+(* from a fit on, through item edits, recomputations and further fits, every model holds exactly the
+   group's settings (no_assignment: the operation assigns no settings attribute) ... *)
+Theorem C14_group_models_hold_the_group_settings_since_the_fit : forall a ops arr sh rest g,
+  grun (construct_group a) (ops ++ GFit arr sh :: rest) = Ok g -> forallb no_assignment rest = true ->
+  models_current g.
+Proof. exact group_models_current_since_fit. Qed.
+Print Assumptions C14_group_models_hold_the_group_settings_since_the_fit.
+
+(* ... and the restriction is needed: an assignment changes the group's attribute only, the models of the
+   last fit keep their settings until the next fit rebuilds them (they still mirror tables and signals) *)
+Theorem C14_group_assignment_reaches_the_models_at_the_next_fit :
+  exists g, grun (construct_group no_args) [GFit 1 (G2Rows 2); GSetCenter false] = Ok g /\
+            ~ models_current g /\ mirror g.
+Proof. exact group_assignment_leaves_models_behind. Qed.
+Print Assumptions C14_group_assignment_reaches_the_models_at_the_next_fit.
 
 (* group recompute_edges(r) = the functional edge recomputation of every table with the group's
    thresholds lowered by r, in df_features and in the models alike *)
